@@ -257,7 +257,8 @@ def gen_flow(rng, depth):
         return ["GridFlow", [gen_leaf(rng) for _ in range(rng.randint(1, 4))], rng.choice([4, 6, 9]), rng.choice([0, 1]), rng.choice([0, 1]),
                 rng.choice(ALIGNS)]
     if k == "Padding":
-        return ["Padding", gen_flow(rng, depth - 1), rng.choice(ALIGNS), rng.choice([0, 1, 2]), rng.choice([0, 1])]
+        return ["Padding", gen_flow(rng, depth - 1), rng.choice(ALIGNS), rng.choice([0, 1, 2]), rng.choice([0, 1]),
+                rng.choice([None, None, "pack", "pack", "clip", 6])]
     if k == "AttrMap":
         return ["AttrMap", gen_flow(rng, depth - 1), rng.randrange(len(ATTRMAPS)), rng.randrange(len(ATTRMAPS))]
     if k == "Placeholder":
@@ -420,7 +421,7 @@ class World:
         elif k == "Overlay":
             w = u.Overlay(B(d[1]), B(d[2]), d[3], d[4], d[5], "pack")
         elif k in ("Padding", "PaddingB"):
-            w = u.Padding(B(d[1]), align=d[2], left=d[3], right=d[4])
+            w = u.Padding(B(d[1]), align=d[2], left=d[3], right=d[4], **({"width": d[5]} if len(d) > 5 and d[5] is not None else {}))
         elif k in ("AttrMap", "AttrMapB"):
             w = u.AttrMap(B(d[1]), dict(ATTRMAPS[d[2]]) or None, dict(ATTRMAPS[d[3]]) or None)
         elif k in ("Placeholder", "PlaceholderB"):
@@ -847,7 +848,7 @@ class World:
                 if c < 0.4:
                     return ["pad", nid, "align", rng.choice(ALIGNS)]
                 if c < 0.8:
-                    return ["pad", nid, "width", rng.choice([["relative", 100], ["relative", 60], 5, 9])]
+                    return ["pad", nid, "width", rng.choice([["relative", 100], ["relative", 60], 5, 9, "pack", "pack", "clip"])]
                 return ["swap", nid, gen_flow(rng, 0) if sizing == "flow" else gen_box(rng, 0)]
             if k == "Filler":
                 return ["swap", nid, gen_flow(rng, 1)]
@@ -904,7 +905,7 @@ def run_history(desc, sizes, ops=None, rng=None, n=0, driver="random"):
                     w.apply(["render", 0, s, 1, 0])
                 w.apply(["check"])
             else:
-                for op in ops:
+                for op in (ops(w) if callable(ops) else ops):
                     w.apply(op)
             return w.trace(driver)
         finally:
@@ -914,6 +915,35 @@ def run_history(desc, sizes, ops=None, rng=None, n=0, driver="random"):
         gc.freeze()     # recorded traces are plain data: keep them out of later collections
         if was:
             gc.enable()
+
+
+def directed_histories():
+    """Every single-child decoration / small container around a leaf that starts EMPTY (zero columns / zero rows) or tiny and
+    is then given content through its public mutator, rendered before and after at two sizes with the first canvas held:
+    the corner where a wrapper answers for a child it did not really render (and so never registered a dependency on)."""
+    out = []
+    for t0, t1 in ((0, 2), (0, 5), (1, 0), (2, 0), (0, 4)):
+        leaf = ["Text", t0, "left", "space"]
+        wraps = [["Padding", leaf, a, l, 0, wd] for a in ("left", "right") for l in (0, 1) for wd in (None, "pack", "clip", 6)]
+        wraps += [["AttrMap", leaf, 0, 1], ["Placeholder", leaf], ["Pile", [leaf]], ["Columns", [leaf], 0, [0]],
+                  ["Columns", [leaf, ["Text", 1, "left", "space"]], 1, [0, 4]]]
+        descs = list(wraps)
+        descs += [["Pile", [w, ["Text", 1, "left", "space"]]] for w in wraps]
+        descs += [["Columns", [w, ["Text", 3, "left", "space"]], 1, [0, 0]] for w in wraps[:8]]
+        descs += [["Padding", w, "left", 0, 0, "pack"] for w in wraps[:4]]
+        for d in descs:
+            def ops(w, t1=t1):
+                leafs = [i for i in w.attached() if w.meta[i][0] == "Text"]
+                tgt = leafs[0] if leafs else 0
+                s0, s1 = w.sizes[0], w.sizes[1]
+                return [["render", 0, s0, 1, 1], ["render", 0, s1, 0, 0], ["rows", 0, s0, 0], ["set_text", tgt, t1],
+                        ["render", 0, s0, 1, 0], ["rows", 0, s0, 0], ["render", 0, s1, 0, 0], ["set_text", tgt, 0],
+                        ["render", 0, s0, 0, 0], ["render", 0, s1, 1, 0], ["check"]]
+            try:
+                out.append(run_history(json.loads(json.dumps(d)), [[12], [7]], ops=ops, driver="directed"))
+            except BUILD_ERRORS:
+                pass
+    return out
 
 
 def random_history(rng):
@@ -1172,6 +1202,9 @@ def run(chk):
     n_rand = 800 if quick else 12000
     for _ in range(n_rand):
         traces.append(random_history(rng))
+    directed = directed_histories()
+    traces += directed
+    chk.cov["directed_histories"] = len(directed)
     t_rand = time.time()
     # ---- spec -> code ----------------------------------------------------------------------------------
     behs = sim.result()
